@@ -1,8 +1,356 @@
 package main
 
-import "strings"
+import (
+	"bytes"
+	"fmt"
+	"go/ast"
+	"go/format"
+	"os"
+	"os/exec"
+	"path/filepath"
+	"regexp"
+	"sort"
+	"strings"
+)
 
-// genExtraFacts: further fact tables (mutex regions, event order, template equality) are added
-// here as the properties that use them are built.
+// genExtraFacts: arity wiring of the generated API (C14), template equality (C14), mutex
+// regions of the filter types (C13), event order in the world operations (C09).
 func genExtraFacts(p *pkgFiles, repo string, out *strings.Builder) {
+	genWiring(p, out)
+	genTemplateEquality(repo, out)
+	genMutexRegions(p, out)
+	genEventOrder(p, out)
+}
+
+func letterIdx(s string) int { return int(s[0] - 'A') }
+
+// wiring facts: every place where a type parameter letter, a storage/column letter and an ids
+// index meet must use the same position.
+func genWiring(p *pkgFiles, out *strings.Builder) {
+	type row struct {
+		what string
+		ok   bool
+	}
+	var rows []row
+	count := map[string]int{}
+	bad := map[string][]string{}
+	check := func(kind string, ok bool, detail string) {
+		count[kind]++
+		if !ok {
+			bad[kind] = append(bad[kind], detail)
+		}
+	}
+	pats := []struct {
+		file, kind string
+		re         *regexp.Regexp
+		ok         func(m []string) bool
+	}{
+		// NewMapN / NewFilterN: storageX / components[i] wired to ids[i]
+		{"maps_gen.go", "map.storage=ids[i]", regexp.MustCompile(`storage([A-L]):\s+&world\.storage\.components\[ids\[(\d+)\]\.id\]`),
+			func(m []string) bool { return fmt.Sprint(letterIdx(m[1])) == m[2] }},
+		{"filter_gen.go", "filter.components[i]=ids[i]", regexp.MustCompile(`components\[(\d+)\] = &world\.storage\.components\[ids\[(\d+)\]\.id\]`),
+			func(m []string) bool { return m[1] == m[2] }},
+		// Get / GetUnchecked: get[X](m.storageX, index)
+		{"maps_gen.go", "map.Get", regexp.MustCompile(`get\[([A-L])\]\(m\.storage([A-L]), index\)`),
+			func(m []string) bool { return m[1] == m[2] }},
+		// callbacks of NewEntityFn/AddFn/Set: (*X)(m.storageX.columns[index.table].Get(row))
+		{"maps_gen.go", "map.callback", regexp.MustCompile(`\(\*([A-L])\)\(m\.storage([A-L])\.columns\[index\.table\]\.Get\(row\)\)`),
+			func(m []string) bool { return m[1] == m[2] }},
+		// batch callbacks: columnX := m.storageX.columns[tableID]; (*X)(columnX.Get(index))
+		{"maps_gen.go", "map.batchColumn", regexp.MustCompile(`column([A-L]) := m\.storage([A-L])\.columns\[tableID\]`),
+			func(m []string) bool { return m[1] == m[2] }},
+		{"maps_gen.go", "map.batchCallback", regexp.MustCompile(`\(\*([A-L])\)\(column([A-L])\.Get\(index\)\)`),
+			func(m []string) bool { return m[1] == m[2] }},
+		{"maps_gen.go", "map.HasAll", regexp.MustCompile(`m\.storage([A-L])\.columns\[table\] != nil`),
+			func(m []string) bool { return true }},
+		// queries: columnX := q.components[i].columns[...]; q.columnPtrX = columnX.pointer; Get
+		{"query_gen.go", "query.column=components[i]", regexp.MustCompile(`column([A-L]) := q\.components\[(\d+)\]\.columns\[q\.table\.id\]`),
+			func(m []string) bool { return fmt.Sprint(letterIdx(m[1])) == m[2] }},
+		{"query_gen.go", "query.columnPtr", regexp.MustCompile(`q\.columnPtr([A-L]) = column([A-L])\.pointer`),
+			func(m []string) bool { return m[1] == m[2] }},
+		{"query_gen.go", "query.itemSize", regexp.MustCompile(`q\.itemSize([A-L]) = column([A-L])\.itemSize`),
+			func(m []string) bool { return m[1] == m[2] }},
+		{"query_nodebug_gen.go", "query.Get", regexp.MustCompile(`\(\*([A-L])\)\(unsafe\.Add\(q\.columnPtr([A-L]), index\*q\.itemSize([A-L])\)\)`),
+			func(m []string) bool { return m[1] == m[2] && m[2] == m[3] }},
+		{"query_debug_gen.go", "query.Get(debug)", regexp.MustCompile(`\(\*([A-L])\)\(unsafe\.Add\(q\.columnPtr([A-L]), index\*q\.itemSize([A-L])\)\)`),
+			func(m []string) bool { return m[1] == m[2] && m[2] == m[3] }},
+		// exchange: columnX := table.Column(ex.ids[i]); (*X)(columnX.Get(index)); runCallback
+		{"exchange_gen.go", "exchange.column=ids[i]", regexp.MustCompile(`column([A-L]) := table\.Column\(ex\.ids\[(\d+)\]\)`),
+			func(m []string) bool { return fmt.Sprint(letterIdx(m[1])) == m[2] }},
+		{"exchange_gen.go", "exchange.batchCallback", regexp.MustCompile(`\(\*([A-L])\)\(column([A-L])\.Get\(index\)\)`),
+			func(m []string) bool { return m[1] == m[2] }},
+		{"exchange_gen.go", "exchange.runCallback", regexp.MustCompile(`\(\*([A-L])\)\(table\.Column\(ex\.ids\[(\d+)\]\)\.Get\(row\)\)`),
+			func(m []string) bool { return fmt.Sprint(letterIdx(m[1])) == m[2] }},
+	}
+	for _, pt := range pats {
+		src, ok := p.src[pt.file]
+		if !ok {
+			problem("%s: file not found", pt.file)
+			continue
+		}
+		ms := pt.re.FindAllStringSubmatch(string(src), -1)
+		for _, m := range ms {
+			check(pt.kind, pt.ok(m), m[0])
+		}
+		if len(ms) == 0 {
+			problem("%s: wiring pattern %q not found (generated code changed shape)", pt.file, pt.kind)
+		}
+	}
+	// ordered tuples: within each Get()/callback argument list the letters must be A,B,C… in order
+	orderRe := regexp.MustCompile(`(?s)func \((?:m|q|ex) \*(?:Map|Query|Exchange)(\d+)\[[^\]]*\]\) (Get|GetUnchecked)\([^)]*\)[^{]*\{(.*?)\n\}`)
+	for _, file := range []string{"maps_gen.go", "query_nodebug_gen.go", "query_debug_gen.go"} {
+		src := string(p.src[file])
+		for _, m := range orderRe.FindAllStringSubmatch(src, -1) {
+			letters := regexp.MustCompile(`\(\*([A-L])\)\(|get\[([A-L])\]`).FindAllStringSubmatch(m[3], -1)
+			seq := ""
+			for _, l := range letters {
+				seq += l[1] + l[2]
+			}
+			want := "ABCDEFGHIJKL"[:len(seq)]
+			check(file+":"+m[2]+".order", seq == want && fmt.Sprint(len(seq)) == m[1], "arity "+m[1]+": "+seq)
+		}
+	}
+	// relation index -> ids[index] / components[index]
+	relPats := []struct{ file, kind, text string }{
+		{"maps_gen.go", "map.GetRelation=ids[index]", "return m.world.storage.getRelation(entity, m.ids[index])"},
+		{"query_gen.go", "query.GetRelation=components[index]", "return q.components[index].columns[q.table.id].target"},
+	}
+	for _, rp := range relPats {
+		n := strings.Count(string(p.src[rp.file]), rp.text)
+		count[rp.kind] = n
+		if n == 0 {
+			problem("%s: relation index wiring %q not found", rp.file, rp.kind)
+		}
+	}
+	var kinds []string
+	for k := range count {
+		kinds = append(kinds, k)
+	}
+	sort.Strings(kinds)
+	for _, k := range kinds {
+		rows = append(rows, row{fmt.Sprintf("%s (%d sites)", k, count[k]), len(bad[k]) == 0})
+		for _, b := range bad[k] {
+			rows = append(rows, row{"MISWIRED " + k + ": " + b, false})
+		}
+	}
+	out.WriteString("/-- arity wiring of the generated API: every site where a type parameter, a component storage or\n    column and an ids index meet uses the same position; argument tuples are in parameter order -/\ndef arityWiring : List (String × Bool) := [\n")
+	for i, r := range rows {
+		sep := ","
+		if i == len(rows)-1 {
+			sep = ""
+		}
+		fmt.Fprintf(out, "  (%s, %s)%s\n", leanStr(r.what), leanBool(r.ok), sep)
+	}
+	out.WriteString("]\n\n")
+	total := 0
+	for _, k := range kinds {
+		total += count[k]
+	}
+	fmt.Fprintf(out, "def arityWiringSites : Nat := %d\n\n", total)
+}
+
+// genTemplateEquality re-runs ecs/internal/generate on a scratch copy and compares the non-test
+// generated files with the checked-in ones: when equal, every arity is an instance of one template.
+func genTemplateEquality(repo string, out *strings.Builder) {
+	tmp, err := os.MkdirTemp("", "arkgen")
+	files := []string{"filter_gen.go", "query_gen.go", "query_debug_gen.go", "query_nodebug_gen.go", "maps_gen.go", "exchange_gen.go", "observers_gen.go"}
+	res := map[string]bool{}
+	note := ""
+	if err == nil {
+		defer os.RemoveAll(tmp)
+		gen := filepath.Join(tmp, "ecs", "internal", "generate")
+		os.MkdirAll(gen, 0o755)
+		ents, _ := os.ReadDir(filepath.Join(repo, "ecs", "internal", "generate"))
+		for _, e := range ents {
+			b, _ := os.ReadFile(filepath.Join(repo, "ecs", "internal", "generate", e.Name()))
+			os.WriteFile(filepath.Join(gen, e.Name()), b, 0o644)
+		}
+		os.WriteFile(filepath.Join(tmp, "go.mod"), []byte("module github.com/mlange-42/ark\n\ngo 1.24\n"), 0o644)
+		cmd := exec.Command("go", "run", ".")
+		cmd.Dir = gen
+		cmd.Env = append(os.Environ(), "GOFLAGS=-mod=mod", "GOPROXY=off")
+		if b, err := cmd.CombinedOutput(); err != nil {
+			cmd2 := exec.Command("go1.26", "run", ".")
+			cmd2.Dir = gen
+			cmd2.Env = append(os.Environ(), "GOFLAGS=-mod=mod", "GOPROXY=off", "GOTOOLCHAIN=local")
+			if b2, err2 := cmd2.CombinedOutput(); err2 != nil {
+				note = "generator failed: " + strings.TrimSpace(string(b)+string(b2))
+			}
+		}
+		for _, f := range files {
+			a, _ := os.ReadFile(filepath.Join(tmp, "ecs", f))
+			b, _ := os.ReadFile(filepath.Join(repo, "ecs", f))
+			// the repository formats the generator's output with gofmt
+			if fa, err := format.Source(a); err == nil {
+				a = fa
+			}
+			res[f] = len(a) > 0 && bytes.Equal(a, b)
+		}
+	} else {
+		note = err.Error()
+	}
+	out.WriteString("/-- each checked-in generated file equals the output of `ecs/internal/generate` run on the\n    templates now: every arity is an instance of one template -/\ndef templateMatches : List (String × Bool) := [\n")
+	for i, f := range files {
+		sep := ","
+		if i == len(files)-1 {
+			sep = ""
+		}
+		fmt.Fprintf(out, "  (%s, %s)%s\n", leanStr(f), leanBool(res[f]), sep)
+	}
+	out.WriteString("]\n\n")
+	fmt.Fprintf(out, "def templateNote : String := %s\n\n", leanStr(note))
+}
+
+// genMutexRegions: in every FilterN.Query the fields generation/rareComp are shared between
+// goroutines; collect reads and writes outside the mutex region.
+func genMutexRegions(p *pkgFiles, out *strings.Builder) {
+	f := p.files["filter_gen.go"]
+	type row struct {
+		name                       string
+		writesOutside, readsOutside int
+	}
+	var rows []row
+	if f == nil {
+		problem("filter_gen.go not found")
+	} else {
+		for _, d := range f.Decls {
+			fd, ok := d.(*ast.FuncDecl)
+			if !ok || fd.Body == nil || fd.Recv == nil || fd.Name.Name != "Query" {
+				continue
+			}
+			r := row{name: recvName(fd.Recv.List[0].Type) + ".Query"}
+			// walk statements in order tracking whether we are between mutex.Lock() and mutex.Unlock()
+			var walk func(stmts []ast.Stmt, locked bool) bool
+			countAccess := func(n ast.Node, locked bool, isWrite bool) {
+				ast.Inspect(n, func(x ast.Node) bool {
+					if se, ok := x.(*ast.SelectorExpr); ok {
+						if id, ok := se.X.(*ast.Ident); ok && id.Name == "f" && (se.Sel.Name == "generation" || se.Sel.Name == "rareComp") {
+							if !locked {
+								if isWrite {
+									r.writesOutside++
+								} else {
+									r.readsOutside++
+								}
+							}
+						}
+					}
+					return true
+				})
+			}
+			walk = func(stmts []ast.Stmt, locked bool) bool {
+				for _, s := range stmts {
+					txt := src(s)
+					switch st := s.(type) {
+					case *ast.ExprStmt:
+						if txt == "f.mutex.Lock()" {
+							locked = true
+							continue
+						}
+						if txt == "f.mutex.Unlock()" {
+							locked = false
+							continue
+						}
+						countAccess(st, locked, false)
+					case *ast.AssignStmt:
+						for _, l := range st.Lhs {
+							countAccess(l, locked, true)
+						}
+						for _, rr := range st.Rhs {
+							countAccess(rr, locked, false)
+						}
+					case *ast.IfStmt:
+						if st.Init != nil {
+							countAccess(st.Init, locked, false)
+						}
+						countAccess(st.Cond, locked, false)
+						locked = walk(st.Body.List, locked)
+						if eb, ok := st.Else.(*ast.BlockStmt); ok {
+							locked = walk(eb.List, locked)
+						}
+					case *ast.BlockStmt:
+						locked = walk(st.List, locked)
+					default:
+						countAccess(s, locked, false)
+					}
+				}
+				return locked
+			}
+			walk(fd.Body.List, false)
+			rows = append(rows, r)
+		}
+	}
+	out.WriteString("/-- `FilterN.Query`: accesses to the shared fields `generation`/`rareComp` outside the mutex\n    region (writes, reads) -/\ndef mutexRegions : List (String × Nat × Nat) := [\n")
+	for i, r := range rows {
+		sep := ","
+		if i == len(rows)-1 {
+			sep = ""
+		}
+		fmt.Fprintf(out, "  (%s, %d, %d)%s\n", leanStr(r.name), r.writesOutside, r.readsOutside, sep)
+	}
+	out.WriteString("]\n\n")
+}
+
+// genEventOrder: position of the removal events relative to the first row mutation in the
+// single-entity operations, and of lock/unlock around them.
+func genEventOrder(p *pkgFiles, out *strings.Builder) {
+	type row struct {
+		name string
+		seq  []string
+	}
+	var rows []row
+	targets := [][3]string{
+		{"world_internal.go", "World", "remove"}, {"world_internal.go", "World", "exchange"},
+		{"world_internal.go", "World", "setRelations"}, {"storage.go", "storage", "RemoveEntity"},
+		{"world_internal.go", "World", "exchangeBatch"}, {"world_internal.go", "World", "setRelationsBatch"},
+		{"world.go", "World", "RemoveEntities"},
+	}
+	interesting := []struct{ sub, tag string }{
+		{".lock()", "lock"}, {".unlock(", "unlock"},
+		{"FireRemoveEntityRel(", "fireRemove"}, {"FireRemoveEntity(", "fireRemove"}, {"FireRemove(", "fireRemove"},
+		{"FireSetRelations(OnRemoveRelations", "fireRemove"}, {"FireSetRelations(OnAddRelations", "fireAdd"},
+		{"FireAdd(", "fireAdd"},
+		{".Add(entity)", "mutate"}, {".Remove(index.row)", "mutate"}, {".Reset()", "mutate"},
+		{"exchangeTable(", "mutate"}, {"moveEntities(", "mutate"}, {"entityPool.Recycle(", "mutate"},
+	}
+	for _, t := range targets {
+		fd := p.findFunc(t[0], t[1], t[2])
+		if fd == nil {
+			problem("%s: %s.%s not found", t[0], t[1], t[2])
+			continue
+		}
+		r := row{name: t[1] + "." + t[2]}
+		ast.Inspect(fd.Body, func(n ast.Node) bool {
+			c, ok := n.(*ast.CallExpr)
+			if !ok {
+				return true
+			}
+			s := src(c)
+			for _, it := range interesting {
+				if strings.Contains(s, it.sub) && strings.HasPrefix(s[strings.Index(s, it.sub)-min(strings.Index(s, it.sub), 60):], "") {
+					// only count the call whose function expression itself contains the marker
+					if strings.Contains(src(c.Fun)+"(", strings.TrimSuffix(it.sub, "(")) || strings.Contains(s[:min(len(s), len(src(c.Fun))+40)], it.sub) {
+						if len(r.seq) == 0 || r.seq[len(r.seq)-1] != it.tag {
+							r.seq = append(r.seq, it.tag)
+						}
+						break
+					}
+				}
+			}
+			return true
+		})
+		rows = append(rows, r)
+	}
+	out.WriteString("/-- order of lock / removal events / first mutation / addition events / unlock in the operations\n    that emit events (consecutive duplicates collapsed) -/\ndef eventOrder : List (String × List String) := [\n")
+	for i, r := range rows {
+		sep := ","
+		if i == len(rows)-1 {
+			sep = ""
+		}
+		parts := make([]string, len(r.seq))
+		for j, s := range r.seq {
+			parts[j] = leanStr(s)
+		}
+		fmt.Fprintf(out, "  (%s, [%s])%s\n", leanStr(r.name), strings.Join(parts, ", "), sep)
+	}
+	out.WriteString("]\n\n")
 }
